@@ -53,7 +53,7 @@ class Arm:
     kind = "?"
 
     def __init__(self, name, *, check=None, signature=None, budget=None, shards=None,
-                 shrink=True, doc=""):
+                 shrink=True, doc="", min_per_shard=8):
         self.name = name
         self.check = check
         self.signature = signature  # case -> iterable of known-class names (input based)
@@ -61,6 +61,7 @@ class Arm:
         self.shards = shards or {"quick": NPROC, "thorough": NPROC * 4}
         self.shrink = shrink
         self.doc = doc
+        self.min_per_shard = min_per_shard
 
 
 class HypArm(Arm):
@@ -298,7 +299,9 @@ def run_arm(mod, arm, tier, seed, known_sigs, deadline):
     ctx = mp.get_context("fork")
     if arm.kind == "hyp":
         budget = max(1, int(arm.budget[tier] * budget_scale()))
-        shards = max(1, min(arm.shards[tier], budget))
+        # the first example hypothesis generates in every shard is the minimal one: keep shards large
+        # enough (>= 8 examples) that this does not dominate small budgets
+        shards = max(1, min(arm.shards[tier], budget // arm.min_per_shard))
         per = max(1, budget // shards)
         jobs = [
             (mod.ID, arm.name, tier, derive_seed(seed, mod.ID, arm.name, i), per, known_sigs, deadline)
